@@ -23,7 +23,8 @@ RULE = ("cases = (chart with an onexit marker in every state, operation sequence
         "a dedicated stream on history-dense charts: events, reset, events - remembered history must be forgotten). Forced "
         "teardown schedules: the timer thread is parked between its run-flag test and event_base_loop() while the "
         "interpreter is destroyed (create/destroy churn); the timer thread is parked in the middle of delivering a delayed event (before "
-        "/ after taking the event from the queue's bookkeeping, on entry of InterpreterImpl::eventReady) while the interpreter is destroyed. non-trivial = the sequence contains cancel/reset/destroy before the "
+        "/ after taking the event from the queue's bookkeeping, on entry of InterpreterImpl::eventReady) while the interpreter is destroyed; delayed sends whose delivery fails when the timer fires (non-existing invoke id / "
+        "parent / session) followed by reset() or destruction. non-trivial = the sequence contains cancel/reset/destroy before the "
         "natural end and an operation from a second thread; distinct = hash(document, ops)")
 ASSUMPTIONS = ["'always terminates' is checked as bounded liveness: a watchdog of 20 s per worker call (normal duration: milliseconds)",
                "charts that never stabilise (model budget) are not used for the cancel-reaches-FINISHED clause"]
@@ -278,6 +279,30 @@ def check_destroy_while_delivering(ctx, delays, point, engine):
               sample={"delays_ms": delays, "parked_at": point, "engine": engine})
 
 
+UNDELIVERABLE_DOC = ('<scxml xmlns="http://www.w3.org/2005/07/scxml" version="1.0" datamodel="null" name="u"><state id="s0" vid="s0"><onentry>%s</onentry>'
+                     '<transition event="error" vid="te"/><transition event="t" vid="tt"/></state></scxml>')
+
+
+def check_teardown_after_failed_delivery(ctx, sends, how, engine):
+    """delayed sends whose delivery fails when the timer fires (the target was accepted at send time but does not exist);
+    afterwards reset() / destruction must still return"""
+    body = "".join('<send vid="u%d" event="t.%d" delay="%dms"%s/>' % (i, i, d, (' target="%s"' % tg) if tg else '') for i, (d, tg) in enumerate(sends))
+    doc = UNDELIVERABLE_DOC % body
+    wait = max(d for d, _ in sends) + 40
+    ops = ["drain", "sleep %d" % wait, "drain"]
+    if how == 'reset':
+        ops += ["reset", "drain", "sleep %d" % wait, "drain", "reset", "step"]
+    ops += ["destroy"]
+    r = call(ctx, "lifecycle", doc, engine, "\n".join(ops), timeout=25)
+    if r.get("exception"):
+        raise Failure("exception", {"exception": r["exception"][:300], "signature": "teardown-exception"})
+    for e in r["trace"]:
+        if e[0] == 'destroyed' and int(e[1]) > 2000:
+            raise Failure("slow-destruction", {"ms": e[1], "signature": "slow-destroy"})
+    ctx.count(harness.h64("undeliverable", json.dumps([sends, how, engine])), any(tg for _, tg in sends), ['teardown-after-failed-delivery', 'then-' + how],
+              sample={"sends": sends, "then": how, "engine": engine})
+
+
 def shard_main(ctx):
     p = ctx.params
     mod = sys.modules[__name__]
@@ -299,6 +324,10 @@ def shard_main(ctx):
     ctx.run_hypothesis([st.lists(st.sampled_from([1, 2, 5, 10, 20]), min_size=1, max_size=4), st.sampled_from(["dq.timer.window", "dq.timer.entry", "ii.eventReady"]),
                         st.sampled_from(["large", "fast"])], lambda d, pt, e: check_destroy_while_delivering(ctx, d, pt, e), p["churn"] // ctx.nshards + 1,
                        lambda d, pt, e: {"destroy_delivering": [d, pt, e]}, name="destroy-delivering")
+    bad_targets = st.sampled_from(["#_nosuchinvoke", "#_parent", "#_scxml_00000000-0000-0000-0000-000000000000", None, "#_internal"])
+    ctx.run_hypothesis([st.lists(st.tuples(st.sampled_from([1, 5, 15, 30]), bad_targets), min_size=1, max_size=3), st.sampled_from(['destroy', 'reset']),
+                        st.sampled_from(["large", "fast"])], lambda sd, how, e: check_teardown_after_failed_delivery(ctx, sd, how, e),
+                       p["churn"] // ctx.nshards + 1, lambda sd, how, e: {"undeliverable": [sd, how, e]}, name="undeliverable")
     ctx.run_hypothesis([st.integers(3, 12), st.integers(0, 6), st.sampled_from(['park', 'plain', 'park'])],
                        lambda n, steps, mode: check_churn(ctx, n, steps, mode), p["churn"] // ctx.nshards + 1,
                        lambda n, steps, mode: {"churn": [n, steps, mode]}, name="churn")
@@ -306,7 +335,10 @@ def shard_main(ctx):
 
 def replay(ctx, case):
     try:
-        if "destroy_delivering" in case:
+        if "undeliverable" in case:
+            sd, how, e = case["undeliverable"]
+            check_teardown_after_failed_delivery(ctx, [tuple(x) for x in sd], how, e)
+        elif "destroy_delivering" in case:
             check_destroy_while_delivering(ctx, *case["destroy_delivering"])
         elif "churn" in case:
             check_churn(ctx, *case["churn"])
